@@ -18,6 +18,7 @@ for d in seeded/*/; do
   name=$(basename "$d"); id=${name%-*}
   ok=0; set -f; for p in $PAT; do case "$name" in $p) ok=1;; esac; done; set +f; [ $ok = 1 ] || continue
   grep -q "'$id'" tools/props.py || { echo "$name: property not claimed, skipped"; continue; }
+  grep -q '"superseded"' "$d/meta.json" 2>/dev/null && { echo "$name: superseded by a later fix in /repo (see meta.json), skipped"; continue; }
   WT="$SCR/wt-$name"
   git -C /repo worktree add -q --detach "$WT" HEAD || { echo "$name: worktree failed"; continue; }
   if ! git -C "$WT" apply "$V/$d/patch.diff"; then echo "$name: patch does not apply"; git -C /repo worktree remove --force "$WT"; continue; fi
